@@ -101,6 +101,7 @@ func cmdVerify(args []string) int {
 	timeout := fs.Int("timeout", 0, "per-solver timeout in seconds")
 	seed := fs.Int("seed", 0, "seed")
 	noEvidence := fs.Bool("no-evidence", false, "do not write the evidence file")
+	scratch := fs.Bool("scratch", false, "selftest run against a scratch copy: write SMT files and replays under a scratch directory")
 	_ = fs.Parse(args)
 	t0 := time.Now()
 	cfg, err := loadConfig(filepath.Join(*verif, "contracts", "properties.json"))
@@ -126,6 +127,9 @@ func cmdVerify(args []string) int {
 		tmo = *timeout
 	}
 	run := &Run{prop: pc, tier: *tier, seed: *seed, verif: *verif, repo: *repo, verbose: *verbose, timeout: tmo, only: *only}
+	if *scratch {
+		run.scratchDir = filepath.Join(*repo, ".gocv-scratch")
+	}
 	code := run.execute()
 	run.wall = time.Since(t0).Seconds()
 	if !*noEvidence && *only == "" {
@@ -156,6 +160,7 @@ type Run struct {
 	failures  []*Obligation
 	bindErrs  []*Obligation
 	deadReturns []string
+	scratchDir string
 	known     []string
 	violations int
 	machinery []string
@@ -172,6 +177,9 @@ func (r *Run) execute() int {
 	r.external = map[string]bool{}
 	r.assumedContracts = map[string]bool{}
 	outDir := filepath.Join(r.verif, "out", r.prop.ID)
+	if r.scratchDir != "" {
+		outDir = filepath.Join(r.scratchDir, "out")
+	}
 	_ = os.RemoveAll(outDir)
 	for _, m := range mods {
 		e := newEngine(filepath.Join(r.repo, m))
